@@ -693,14 +693,18 @@ impl Transformer {
                 let new_height = format!("{}mm", height);
                 new_svg_attrs.insert("width", new_width.as_str());
                 new_svg_attrs.insert("height", new_height.as_str());
-            } else if orig_height.is_none() {
-                let (width, unit) = split_unit(orig_width.expect("logic"))?;
-                let new_height = format!("{}{}", fstr(width / aspect_ratio), unit);
-                new_svg_attrs.insert("height", new_height.as_str());
-            } else if orig_width.is_none() {
-                let (height, unit) = split_unit(orig_height.expect("logic"))?;
-                let new_width = format!("{}{}", fstr(height * aspect_ratio), unit);
-                new_svg_attrs.insert("width", new_width.as_str());
+            } else if bb.width() > 0. && bb.height() > 0. {
+                // (an extent without area has no aspect ratio: the missing dimension is
+                // left out rather than written as `inf` / `NaN`)
+                if orig_height.is_none() {
+                    let (width, unit) = split_unit(orig_width.expect("logic"))?;
+                    let new_height = format!("{}{}", fstr(width / aspect_ratio), unit);
+                    new_svg_attrs.insert("height", new_height.as_str());
+                } else if orig_width.is_none() {
+                    let (height, unit) = split_unit(orig_height.expect("logic"))?;
+                    let new_width = format!("{}{}", fstr(height * aspect_ratio), unit);
+                    new_svg_attrs.insert("width", new_width.as_str());
+                }
             }
 
             if !orig_svg_attrs.contains_key("viewBox") {
